@@ -1,4 +1,4 @@
-// Kani's kani_lib.c + T3 (allocation budget assertion)
+// Kani's kani_lib.c + T4 (word-typed heap objects, up to 4 KiB)
 // Copyright Kani Contributors
 // SPDX-License-Identifier: Apache-2.0 OR MIT
 #include <stddef.h>
@@ -26,10 +26,6 @@ extern struct Unit VoidUnit;
         __CPROVER_assume(__KANI_temp);      \
     } while (0)
 
-// T3 (DESIGN 2.2): allocation budget.  The variable is a #[no_mangle] static of the harness crate (vk.rs),
-// set by the harness before it calls the code under test.
-extern size_t __verif_alloc_cap;
-
 // Check that the input is either a power of 2, or 0. Algorithm from Hackers Delight.
 __CPROVER_bool __KANI_is_nonzero_power_of_two(size_t i) { return (i != 0) && (i & (i - 1)) == 0; }
 
@@ -49,7 +45,8 @@ uint8_t *__rust_alloc(size_t size, size_t align)
     // TODO: Ensure we are doing the right thing with align
     // https://github.com/model-checking/kani/issues/1168
     __KANI_assert(__KANI_is_nonzero_power_of_two(align), "Alignment is power of two");
-    __KANI_assert(size <= __verif_alloc_cap, "VERIF_ALLOC_CAP single allocation request within the budget");
+    // T4: word-typed object: lets CBMC's field sensitivity keep constants (enum niches) stored on the heap
+    if ((size & 7) == 0 && size <= 4096) return (uint8_t *)malloc((size >> 3) * sizeof(uint64_t));
     return malloc(size);
 }
 
@@ -69,7 +66,6 @@ uint8_t *__rust_alloc_zeroed(size_t size, size_t align)
     // TODO: Ensure we are doing the right thing with align
     // https://github.com/model-checking/kani/issues/1168
     __KANI_assert(__KANI_is_nonzero_power_of_two(align), "Alignment is power of two");
-    __KANI_assert(size <= __verif_alloc_cap, "VERIF_ALLOC_CAP single allocation request within the budget");
     return calloc(1, size);
 }
 
@@ -115,7 +111,6 @@ uint8_t *__rust_realloc(uint8_t *ptr, size_t old_size, size_t align, size_t new_
     // https://github.com/model-checking/kani/issues/1168
     __KANI_assert(__KANI_is_nonzero_power_of_two(align), "Alignment is power of two");
 
-    __KANI_assert(new_size <= __verif_alloc_cap, "VERIF_ALLOC_CAP single allocation request within the budget");
     uint8_t *result = malloc(new_size);
     if (result) {
         size_t bytes_to_copy = new_size < old_size ? new_size : old_size;
